@@ -22,7 +22,9 @@ Inductive sop :=
 | SKeyRt (k : key) | SKeyParse (s : str) | SValid (s : str)
 | SNode (i : nat) | SRestart (i : nat) | SSnapshot (sid : N) | SLoad (sid : N)
 (* the Raft premise of multi-node history-id cases *)
-| SAlloc | SSettle (policy : N) | SApplyNext (ks : str) (all : bool) | SLog.
+| SAlloc | SSettle (policy : N) | SApplyNext (ks : str) (all : bool) | SLog
+(* a gRPC connection of a client: no effect on the actor model *)
+| SConn (client : str).
 
 Inductive sout :=
 | OEv (evs : list event)
@@ -208,6 +210,7 @@ Section Run.
         end
     | SApplyNext ks all => apply_loop (if all then length (rp_log (w_rp w)) else 1%nat) ks w 0
     | SLog => (w, OLog (rp_log (w_rp w)))
+    | SConn _ => (w, OOk)
     end.
 
   Fixpoint run_script (w : world) (ops : list sop) : list sout :=
